@@ -5,9 +5,9 @@
    independent reference parser Model/Rfc9112.v.  The theorems describe the tree with
    fixes/C01-reject-cr-lf-nul-in-header-values.diff and fixes/C01-no-last-chunk-after-bodiless-response.diff applied. *)
 From Coq Require Import List Bool NArith ZArith.
-From MV Require Import Base.Bytes Model.Http1Msg Model.BodySizePrelude Gen.BodySize Model.Http1Conn Model.Rfc9112
+From MV Require Import Base.Bytes Model.Http1Msg Model.BodySizePrelude Gen.BodySize Model.Http1Conn Model.Rfc9112 Model.Http1Edit
   Proofs.Http1Regex Proofs.Http1Validate Proofs.Http1TeNorm Proofs.Http1Framing Proofs.Http1FramingMain
-  Proofs.Http1Lines Proofs.Http1Chunks Proofs.Http1Roundtrip Proofs.Http1ParseInv Proofs.Http1EndToEnd.
+  Proofs.Http1Lines Proofs.Http1Chunks Proofs.Http1Roundtrip Proofs.Http1ParseInv Proofs.Http1EndToEnd Proofs.Http1Edit.
 Import ListNotations.
 
 (* (a) framing_agree, requests: for every request head accepted by the generated validate_headers, the generated
@@ -146,6 +146,30 @@ Theorem C01_end_to_end_partial : forall o r chunks,
   Inv_req r -> framing_matches r chunks -> forwarded_reads_as_recorded o r chunks.
 Proof. exact forwarded_reads_as_recorded_partial. Qed.
 Print Assumptions C01_end_to_end_partial.
+
+(* Addon edits through the Message API (.content = ..., .text = ..., Response.make: all Message.set_content):
+   for every header list, every new body and whatever encoding.encode did with the Content-Encoding (encoded,
+   or failed: header deleted, body kept as is), the head afterwards carries Content-Length = len(raw body) and the
+   reference reads exactly that length (requests and responses), unless a Transfer-Encoding header is present, in
+   which case the framing headers are untouched. *)
+Theorem C01_set_content_refreshes_length : forall enc hs value,
+  let '(hs', raw) := set_content enc hs value in
+  if hcontains TRANSFER_ENCODING hs'
+  then get_all TRANSFER_ENCODING hs' = get_all TRANSFER_ENCODING hs /\ get_all CONTENT_LENGTH hs' = get_all CONTENT_LENGTH hs
+  else get_all CONTENT_LENGTH hs' = [dec_of_N (N.of_nat (length raw))]
+       /\ forall version is_request, fields_body_length is_request version hs' = Some (BLLen (N.of_nat (length raw))).
+Proof. exact set_content_refreshes_length. Qed.
+Print Assumptions C01_set_content_refreshes_length.
+
+(* ... hence a request edited by an addon is forwarded so that every RFC 9112 recipient reads the recorded
+   (edited) request: the end-to-end statement including body edits, for Content-Length framing. *)
+Theorem C01_edited_request_reads_as_recorded : forall o r enc value,
+  Inv_req r ->
+  let '(hs', raw) := set_content enc (rq_headers r) value in
+  hcontains TRANSFER_ENCODING hs' = false ->
+  forwarded_reads_as_recorded o (with_headers r hs') [raw].
+Proof. exact edited_request_reads_as_recorded. Qed.
+Print Assumptions C01_edited_request_reads_as_recorded.
 
 Theorem C01_nonvacuous :
   validate_headers (MReq sample_req) = Ok tt /\ Inv_req sample_req /\ framing_matches sample_req sample_chunks
